@@ -2,6 +2,9 @@
 
 1. Lean: Props/C09.lean (exactness of + - * % neg for every representation, representation
    independence of the integer consumers of `Num`, operator equations) is rebuilt and audited.
+   Round 2: hash/cmp/index/slice/limit/skip/range/tobytes/implode/i32/key/render representation
+   independence with `_exact` specifications, object `*` merge law, join/split inverse, "everything
+   else errors" for `+ * /`, IEEE correct-rounding lemmas.
 2. Correspondence: the real `impl Add/Sub/Mul/Div/Rem/Neg for Val` vs the Lean model on the
    exhaustive pool product + random integer pairs (floats bit for bit: the model's IEEE
    arithmetic is pure integer arithmetic).
@@ -45,6 +48,32 @@ def run(ctx):
     bad = verif.diff_corr(ctx, cases, "c09-arith", classify, harmless=lambda req, real, m: norm(real) == norm(m))
     ctx.log("correspondence: %d cases, %d disagreements, %d panics" % (len(cases), bad, len(panics)))
 
+    # round 2: comparison / equality / length and the integer consumers, real code vs proved model
+    cout = ctx.harness(["c09", "cons"])
+    ccases, joininv = [], []
+    for l in cout.splitlines():
+        if l.startswith("JOININV "):
+            joininv.append(l[8:].split("\t"))
+            continue
+        c = tuple(l.split("\t"))
+        if len(c) == 3:
+            ccases.append(c)
+    cpanics = [c for c in ccases if c[2].startswith("PANIC")]
+    for c in cpanics[:20]:
+        ctx.violation("panic:" + c[1], "integer consumer panics", {"request": c[1], "real": c[2]})
+    ccases = [c for c in ccases if not c[2].startswith("PANIC")]
+    cbad = verif.diff_corr(ctx, ccases, "c09-consumers", classify, harmless=lambda req, real, m: norm(real) == norm(m))
+    ckinds = {}
+    for c in ccases:
+        k = c[1].split(" ")[0]
+        ckinds[k] = ckinds.get(k, 0) + 1
+    jfail = [j for j in joininv if j[0] != "ok"]
+    for j in jfail[:10]:
+        ctx.violation("c09-join-inverse:%s:%s" % (j[1], j[2]), "`join` does not invert string `/`",
+                      {"string_hex": j[1], "separator_hex": j[2]})
+    ctx.log("consumers: %d cases, %d disagreements, %d panics; join-inverse %d checks, %d failures"
+            % (len(ccases), cbad, len(cpanics), len(joininv), len(jfail)))
+
     meta = ctx.harness(["c09", "meta"])
     mtot = mfail = 0
     samples_meta = []
@@ -75,14 +104,19 @@ def run(ctx):
         kinds[k] = kinds.get(k, 0) + 1
     distinct = len({c[1] for c in cases})
     ctx.coverage.update({
-        "evaluations": len(cases) + mtot,
-        "distinct_nontrivial": distinct,
+        "evaluations": len(cases) + mtot + len(ccases) + len(joininv),
+        "distinct_nontrivial": distinct + len({c[1] for c in ccases}),
         "rule": "distinct (operator, left, right) requests over the pool product (84 numbers incl. every representation boundary, "
                 "floats, decimal literals; 25 non-numbers) plus seeded random integers clustered at 2^k boundaries in machine/big "
-                "representation; every case exercises one operator arm, so every distinct case counts as non-trivial",
+                "representation; every case exercises one operator arm, so every distinct case counts as non-trivial; "
+                "plus distinct consumer requests (c09.cmp/eq/len/idx/slice/limit/skip/range/tobytes/implode/i32/show/key/join) over the same pool, "
+                "49 boundary integers (i32, u8, code-point, isize and usize limits) in both representations, and seeded random integers",
         "samples": [{"request": c[1], "real": c[2]} for c in cases[:2] + cases[len(cases) // 2: len(cases) // 2 + 2]] + samples_meta,
-        "traces_validated_against_impl": len(cases),
+        "traces_validated_against_impl": len(cases) + len(ccases),
         "operator_distribution": kinds,
+        "consumer_distribution": ckinds,
+        "consumer_disagreements": cbad,
+        "join_inverse_checks": len(joininv),
         "representation_independence_checks": mtot,
         "disagreements": bad,
         "exhaustive": False,
@@ -91,5 +125,6 @@ def run(ctx):
         "model Val/Num.lean, Val/Arith.lean, Val/Float.lean written by hand from jaq-json/src/{num,lib}.rs; tied by this run's correspondence",
         "IEEE-754 double arithmetic is modelled in pure integer arithmetic (round-to-nearest-even) and compared bit for bit with the hardware",
         "string repetition with counts > 1000 on non-empty strings is not executed (memory exhaustion is excepted by C05/C09)",
+        "libm `ldexp`/`scalbn` of 1.0 is taken to be the correctly rounded 2^n (compared bit for bit on every run)",
         "IndexMap lookup is modelled as first entry with equal hash feed and `==` (hash collisions of foldhash ignored)",
     ]
